@@ -51,7 +51,7 @@ def v2_file(ver, counts1, counts2, ftr, cut=0, ver2=None, extra=0):
     return b[:len(b) - cut] if cut else b
 
 # ---- footer templates
-FIXED = ['NaaadN', 'NaaaddN', 'Naaa-dN', 'Naaa+ddN', 'Naaad:ddN', 'Naaadd:dd:ddN', 'N<+dd>-dN', 'N<-dd>d:ddN', 'NAAAdN', 'NaaaaadddN']
+FIXED = ['NaaadN', 'NaaaddN', 'Naaa-dN', 'Naaa-d:ddN', 'Naaa-dd:dd:ddN', 'Naaa+ddN', 'Naaad:ddN', 'Naaadd:dd:ddN', 'N<+dd>-dN', 'N<-dd>d:ddN', 'NAAAdN', 'NaaaaadddN']
 ALT = ['Naaadaaa,Md.d.d,Md.d.dN', 'Naaadaaa,Mdd.d.d/d,Md.d.d/ddN', 'Naaa-ddaaa,Jd,JdddN', 'Naaadaaa,d,dddN', 'Naaadaaad,Jdd/d:dd,ddd/-dN',
        'N<+dd>-d<+dd>,Md.d.d/-d,Mdd.d.d/dddN', 'Naaadaaa-d:dd,Jddd/dd:dd:dd,dd/+dN', 'NAAAdAAA,Mdd.d.d,Mdd.d.d/dN']
 HOSTILE = ['', 'N', 'NN', 'aaad', 'NaaadX', 'XaaadN', 'NaaaN', 'N:aaadN', 'NaaadaaaN', 'Naaadaaa,N', 'Naaadaaa,Md.dN', 'Naaadaaa,Md.d.dN', 'Naaadaaa,Md.d.d,N',
@@ -63,12 +63,13 @@ HOSTILE = ['', 'N', 'NN', 'aaad', 'NaaadX', 'XaaadN', 'NaaaN', 'N:aaadN', 'Naaad
 
 def mutations(tpl):
     """single-edit mutations of a template: every inner position deleted, replaced by a free ASCII byte, preceded by a free ASCII byte
-    (so every single-byte ASCII substitution and insertion is inside one of the shapes)"""
+    (so every single-byte ASCII substitution and insertion is inside one of the shapes), or replaced by any two-byte UTF-8 character"""
     out = []; t = list(tpl)
     for i in range(1, len(t) - 1):
         out.append(t[:i] + t[i + 1:])
         out.append(t[:i] + ['?'] + t[i + 1:])
         out.append(t[:i] + ['?'] + t[i:])
+        out.append(t[:i] + ['U', 'u'] + t[i + 1:])      # a two-byte UTF-8 character in place of the byte (the footer stays valid UTF-8)
     out.append(t[:-1] + ['?'] + t[-1:])
     seen = set(); res = []
     for m in out:
@@ -121,13 +122,14 @@ def c19_reader_shapes(tier, seed=0):
             for extra in (0, 4):
                 out.append(('first header version %s, second header version byte %s, counts %s, %d extra block bytes, footer NaaadN' % (chr(ver), ver2, c2, extra),
                             v2_file(ver, (0, 0, 0, 0, 0, 0), c2, 'NaaadN', ver2=ver2, extra=extra), ('on',)))
-    # (5) single-edit mutations of footers (one free ASCII byte substituted / inserted, or one position deleted)
-    muts = []
+    # (5) single-edit mutations of footers: deletions and two-byte-character substitutions (class-fixed, fast) are all run in
+    # both tiers; of the shapes with a free ASCII byte (substitution, insertion) the quick tier runs a seeded sample
+    fixed_m = []; free_m = []
     for b in (MUT_BASES if not thorough else MUT_BASES + FIXED + ALT):
-        for m in mutations(b): muts.append(m)
+        for m in mutations(b): (free_m if '?' in m else fixed_m).append(m)
     if not thorough:
-        rnd = random.Random(1000 + seed); muts = rnd.sample(muts, 40)
-    for m in muts:
+        rnd = random.Random(1000 + seed); free_m = rnd.sample(free_m, 40)
+    for m in fixed_m + free_m:
         out.append(('v3 footer mutation %s' % tpl_str(m), v2_file(0x33, (0, 0, 0, 0, 0, 0), (0, 0, 0, 1, 1, 0), m), ('on',)))
     # (6) short footers with every inner byte free
     for k in ([1, 2] if not thorough else [1, 2, 3, 4]):
